@@ -372,7 +372,11 @@ def run_e2e(stack, ncalls):
   viol = []
   data = VarzReceiver.VARZ_DATA
   ok_calls = r['outcome'].count(':ok@')
-  agg = VarzAggregator.Aggregate(data, VarzReceiver.VARZ_METRICS)
+  try:
+    agg = VarzAggregator.Aggregate(data, VarzReceiver.VARZ_METRICS)
+  except Exception as e:  # noqa
+    agg = {}
+    viol.append({'clause': 'C18.e2e-sum', 'message': '%s stack: aggregating after %d calls raised %s: %s' % (stack, ncalls, type(e).__name__, e), 'sig': {}})
   svc = 'hello.Hello'
   def total(metric):
     return sum(a.total for k, a in agg.get(metric, {}).items() if k[0] == svc)
